@@ -49,7 +49,12 @@ fn aggregate(c: &Components) -> BTreeMap<(String, i32), Vec<f64>> {
 
 pub fn check_case(_ctx: &Ctx, case: &Case, t: &mut Tally) {
     let spec = &case.spec;
-    let text = spec.to_text();
+    let mut text = spec.to_text();
+    if case.sub_seed % 4 == 0 {
+        // some values spelled another way (1.5e3, +4, 4.00, 4., .5): the declared number is the same
+        text = crate::spec::respell_values(&text, &mut crate::rng::Rng::new(case.sub_seed));
+        t.count("files_with_respelled_values");
+    }
     let n = spec.n;
     let wit = |extra: Value| {
         let mut w = case.witness();
